@@ -377,6 +377,11 @@ func (se *c19Sess) build(q c19Q) c19Built {
 		return c19Built{payload: b.Str("0")}
 	case "cutstr":
 		return c19Built{payload: b.U32(100).Raw([]byte("abc"))}
+	case "arg2-missing": // a complete first path (inside the session's directory: a server that dispatches the request anyway acts there), no second
+		return c19Built{payload: b.Str(se.wpath("vh-c19-a", q.Rel))}
+	case "arg2-cut": // the second path announces more bytes than the packet holds
+		second := se.wpath("vh-c19-b", q.Rel)
+		return c19Built{payload: b.Str(se.wpath("vh-c19-a", q.Rel)).U32(uint32(len(second) + 31)).Raw([]byte(second))}
 	case "paths":
 		dst := se.fresh("g")
 		return c19Built{payload: b.Str(se.wpath("f", q.Rel)).Str(se.wpath(dst, q.Rel)), dst: dst}
@@ -573,6 +578,10 @@ func (se *c19Sess) do(q c19Q, cfg, supported []string) (class string, out []c19V
 	if class == "known" && q.Args != "std" && q.Args != "alt" {
 		return "skip", nil, nil // raw bytes that happen to form a complete supported request: no expectation recorded
 	}
+	if ok, _ := se.s.Contained(frame); !ok {
+		se.id--
+		return "not-run", nil, nil // containment: a path of the request leaves the scratch directory (os-backed server)
+	}
 	before := se.listing()
 	se.rec.take()
 	p, err := hCall(se.s, se.k, frame)
@@ -619,6 +628,9 @@ func (se *c19Sess) pipelined(qs []c19Q, cfg, supported []string) (out []c19V, ob
 		class, name := c19Classify(bt.payload, supported)
 		if class == "malformed" || (class == "known" && name != "statvfs@openssh.com") {
 			continue
+		}
+		if ok, _ := se.s.Contained(wire.Req(wire.Extended, se.id+1, bt.payload)); !ok {
+			continue // containment
 		}
 		se.id++
 		stream = append(stream, wire.Req(wire.Extended, se.id, bt.payload)...)
@@ -780,8 +792,8 @@ func c19Malformed(known []string) []c19Q {
 		)
 		if k != "statvfs@openssh.com" {
 			qs = append(qs,
-				c19Q{Args: "payload", RawHex: hx(b.Str("/vh-c19-a"))},                                  // second argument missing
-				c19Q{Args: "payload", RawHex: hx(b.Str("/vh-c19-a").U32(40).Raw([]byte("/vh-c19-b")))}, // second argument cut
+				c19Q{NameHex: hx([]byte(k)), Args: "arg2-missing"}, // second argument missing
+				c19Q{NameHex: hx([]byte(k)), Args: "arg2-cut"},     // second argument cut
 			)
 		}
 	}
@@ -1014,6 +1026,10 @@ func c19Server(c *lib.Ctx, scratch string) {
 					for _, o := range obs {
 						r.Obs(o.Key, o.Got, one)
 					}
+					if class == "not-run" {
+						r.Hist(lib.NotRunBucket)
+						continue
+					}
 					r.Case(fmt.Sprintf("ext %s %v %v cfg=%v %v", v.kind, v.opts, v.ifaces, cfg, q), class != "known")
 					r.Hist("server-extended-" + v.kind + "-" + class)
 					if se.ro {
@@ -1085,6 +1101,11 @@ func c19Server(c *lib.Ctx, scratch string) {
 					class, vs, obs := se.do(q, cfg, names)
 					for _, o := range obs {
 						r.Obs(o.Key, o.Got, in)
+					}
+					if class == "not-run" {
+						r.Hist(lib.NotRunBucket)
+						se.close()
+						continue
 					}
 					if class == "malformed" && len(obs) == 0 {
 						r.nx++
